@@ -524,6 +524,11 @@ func trimWhitespace(t *Tree, s string) string {
 		}
 
 		if len(str) == 0 {
+			// An empty (or all-whitespace) line is still a line of the
+			// string: keep its line-break.
+			if i != len(lines)-1 {
+				trimmed += lineBreaks[0]
+			}
 			continue
 		}
 
